@@ -51,6 +51,8 @@ UNITS += [
     P("removeBack", "h_remove", "w_PL_removeBack", ["remove.only", "remove.last"], defs=["NV_RM_MODE=2"]),
     P("remove_value", "h_remove", "w_PL_removeValue", RM, defs=["NV_RM_MODE=3"]),
     P("swap", "h_swap", "w_PL_swap", ["swap.empty_with_full", "swap.full_with_full"]),
+    P("clear.bounded", "h_b_clear", "w_PL_clear", ["b_clear.two", "b_clear.empty"], kind="bounded", bound="list of at most 2 elements",
+      cbmc=["--unwind", "4", "--unwinding-assertions"]),
 ]
 import importlib.util as _ilu, os as _os
 _sp = _ilu.spec_from_file_location("units_array", _os.path.join(_os.path.dirname(__file__), "_array_units.py"))
@@ -59,7 +61,7 @@ _sp.loader.exec_module(_arr)
 UNITS += _arr.units("C03")
 TRUSTED = ["cbmc 6.11.0 / goto-instrument DFCC / CaDiCaL", "goto-cc C++ front end; List.hpp with compat rule R1"]
 ASSUMPTIONS = [
-    "List: step contracts + bounded whole-list units.  PoolList: step contracts for append() (default-constructed element; the argument-taking overloads are member templates goto-cc cannot instantiate), remove(iterator), remove(const T&), removeFront, removeBack, swap over a symbolic neighbourhood; clear / destruction not covered.  Array: NOT covered (bounded whole-array units are parked: they exhaust memory on the repaired tree, see units/_array_units.py)",
+    "List: step contracts + bounded whole-list units.  PoolList: step contracts for append() (default-constructed element; the argument-taking overloads are member templates goto-cc cannot instantiate), remove(iterator), remove(const T&), removeFront, removeBack, swap over a symbolic neighbourhood; clear() is a bounded stand-in (<= 2 elements); destruction not covered.  Array: NOT covered (bounded whole-array units are parked: they exhaust memory on the repaired tree, see units/_array_units.py)",
     "step contracts (insert, remove, swap) hold for ANY list: the neighbourhood (position, predecessor, free item, sentinel) is symbolic, "
     "the rest of the list is unconstrained; sequence semantics follows from the relinking postconditions by induction over operations (paper)",
     "operations that walk the whole list: copy, clear, find, ==, !=, append(list), destruction are BOUNDED stand-ins (<= 3 elements) and not counted as proved; "
